@@ -284,6 +284,20 @@ def call(I, name, args, e):
         pat = args[1]
         s = a0
         return ('call', 'starts_with', ('a', s.name or '?'), pat if is_term(pat) else ('a', '?'))
+    if n == 'core::slice::<impl [T]>::split' and len(args) == 2 and isinstance(a0, (SeqV, SliceV)) and (a0.seq if isinstance(a0, SliceV) else a0).is_bytes():
+        # bytes.split(|b| *b == K): the separator predicate evaluated on an arbitrary byte must be equality with a constant;
+        # it is then the split of the string at that character
+        bt = ('a', I.fresh_name('splitbyte')); sym.CTX[bt] = (0, 255) if isinstance(sym.CTX, dict) else None
+        n_t = len(I.tops)
+        pr = I.call_closure(args[1], [RefV(Cell(bt))], e)
+        sep = None
+        if len(I.tops) == n_t and is_term(pr):
+            for k_ in range(256):
+                if pr == cmp('eq', bt, C(k_)) or pr == cmp('eq', C(k_), bt): sep = C(k_); break
+        if sep is None:
+            del I.tops[n_t:]
+            return I.top('slice::split with a separator predicate that is not equality with a constant', e)
+        args = [args[0], sep]; n = 'core::str::<impl str>::split'
     if n == 'core::str::<impl str>::split':
         s = a0
         base = s.seq if isinstance(s, SliceV) else s
